@@ -1025,6 +1025,21 @@ static int gw_run(const int *prog, int n) {
         for (int q = 0; q < nheld; q++) m_mem_unref(HELD[q]);
         vp_outstanding = base - __atomic_load_n(&vp_foreign_outstanding, __ATOMIC_SEQ_CST);
     }
+#if defined(__has_feature)
+#if __has_feature(address_sanitizer)
+    /* what the library allocates behind the allocator hook (compiled regular expressions, duplicated strings) is watched by
+       LeakSanitizer: every 64 programs that ended in a clean state everything still allocated must be reachable */
+    {
+        extern int __lsan_do_recoverable_leak_check(void);
+        static VP_TLS int lsan_ctr;
+        if (!threaded && is_clean(cur_state) && ++lsan_ctr % 64 == 0 && __lsan_do_recoverable_leak_check()) {
+            gw_mismatch(prog, n, n - 1, "core-lsan-leak", "LeakSanitizer: memory allocated during one of the last 64 programs (all ended with the context released and every reference dropped) is unreachable; allocation stack in the driver output");
+            if (gw_forked) gw_resume_exit();
+            return 1;
+        }
+    }
+#endif
+#endif
     if (double_close) { gw_mismatch(prog, n, n - 1, "core-bad-close", "close() failed %d times (double close / not owned)", double_close); if (gw_forked) gw_resume_exit(); return 1; }
     return 0;
 }
